@@ -48,6 +48,24 @@ def brute(infr, infr2, inam2, e1, e2, mode):
     return H
 
 
+def brute_fast(infr, infr2, inam2, e1, e2, mode):
+    """Vectorised equivalent of brute() for large arrays (comparisons only, no digitize)."""
+    infr, infr2 = np.asarray(infr, dtype=float), np.asarray(infr2, dtype=float)
+    T, M, K = infr2.shape
+    n1, n2 = len(e1) - 1, len(e2) - 1
+    b1 = (infr[:, :, None] >= e1[None, None, :]).sum(axis=2) - 1
+    b1[(infr < e1[0]) | (infr >= e1[-1])] = -1
+    b2 = (infr2[:, :, :, None] >= e2[None, None, None, :]).sum(axis=3) - 1
+    b2[(infr2 < e2[0]) | (infr2 >= e2[-1])] = -1
+    b1 = np.broadcast_to(b1[:, :, None], (T, M, K))
+    ok = (b1 >= 0) & (b2 >= 0)
+    a = (inam2 ** 2 if mode == 'energy' else inam2)
+    H = np.zeros((T, n2, n1))
+    tt = np.broadcast_to(np.arange(T)[:, None, None], (T, M, K))
+    np.add.at(H, (tt[ok], b2[ok], b1[ok]), a[ok])
+    return H
+
+
 def pool(edges, reduced=False):
     lo, hi = edges[0], edges[-1]
     vals = [lo - .3 * (hi - lo) - .1]
@@ -64,7 +82,7 @@ def pool(edges, reduced=False):
 
 def compare(ctx, infr, infr2, inam2, e1, e2, mode, case, tag):
     from emd import spectra as SP
-    H = brute(infr, infr2, inam2, e1, e2, mode)
+    H = brute(infr, infr2, inam2, e1, e2, mode) if infr2.size <= 4000 else brute_fast(infr, infr2, inam2, e1, e2, mode)
     tot = np.abs(inam2 ** 2 if mode == 'energy' else inam2).sum() or 1.0
     tol = 1e-12 * tot
     f1, f2 = np.asarray(infr, dtype=float), np.asarray(infr2, dtype=float)
@@ -137,9 +155,15 @@ def run_shard(ctx):
     for i in range(n):
         if ctx.out_of_time():
             break
-        T, M, K = int(rng.integers(1, 13)), int(rng.integers(1, 4)), int(rng.integers(1, 4))
-        e1, _ = SP.define_hist_bins(float(rng.uniform(1, 5)), float(rng.uniform(8, 40)), int(rng.integers(1, 6)), scale=gens.pick(rng, ['linear', 'log']))
-        e2, _ = SP.define_hist_bins(float(rng.uniform(.1, 1)), float(rng.uniform(2, 6)), int(rng.integers(1, 6)), scale=gens.pick(rng, ['linear', 'log']))
+        T, M, K = (int(rng.integers(1, 13)) if rng.random() > .02 else int(rng.integers(300, 800))), int(rng.integers(1, 4)), int(rng.integers(1, 4))
+        nb1 = int(rng.integers(1, 6)) if rng.random() < .7 else int(rng.integers(6, 70))      # "independent bin sets": also many bins
+        nb2 = int(rng.integers(1, 6)) if rng.random() < .7 else int(rng.integers(6, 70))
+        if i == 0 and ctx.shard % 4 == 0:
+            # one very long recording per four shards (size-dependent code paths)
+            T, M, K = int(rng.integers(66000, 90000)), 2, 2
+            ctx.count('very_long_recordings')
+        e1, _ = SP.define_hist_bins(float(rng.uniform(1, 5)), float(rng.uniform(8, 40)), nb1, scale=gens.pick(rng, ['linear', 'log']))
+        e2, _ = SP.define_hist_bins(float(rng.uniform(.1, 1)), float(rng.uniform(2, 6)), nb2, scale=gens.pick(rng, ['linear', 'log']))
         infr = rng.uniform(e1[0] - .3 * (e1[-1] - e1[0]), e1[-1] + .3 * (e1[-1] - e1[0]), (T, M))
         infr2 = rng.uniform(e2[0] - .3 * (e2[-1] - e2[0]), e2[-1] + .3 * (e2[-1] - e2[0]), (T, M, K))
         r1, r2 = rng.random((T, M)), rng.random((T, M, K))
